@@ -28,6 +28,8 @@ class C06(Check):
         fmt = rng.choice(FMTS + ["x"])
         shared = rng.random() < 0.8
         kind_mem = "hash" if (shared and rng.random() < 0.3) else "array"
+        if shared and kind_mem == "array" and rng.random() < 0.3:
+            kind_mem = "ptr"            # the array-map variable through a pointer register: e.mI[e.r9 + offset] += amount
         k = rng.choice([2, 2, 3]) if shared else 1
         kind = rng.choice(["const", "reg", "expr", "expr"])
         ofmt = rng.choice(exprs.FMTS)
@@ -53,7 +55,7 @@ class C06(Check):
         return {"fmt": fmt, "shared": shared, "mem": kind_mem, "k": k, "op": rng.choice(["iadd", "isub"]), "amount": amount,
                 "ofmt": ofmt, "oval": oval, "regvals": regvals,
                 "init": rng.choice([0, 25000, -25000, -1, 1, 2 ** 32 - 50000, 2 ** 32 - 1, -2 ** 32 + 50000, 2 ** 31, 7 * 2 ** 32 - 3]) if fmt == "x" else exprs.rand_value(rng, fmt),
-                "neighbours": [rng.randrange(2 ** 32), rng.randrange(2 ** 32)], "schedseed": rng.randrange(2 ** 30)}
+                "neighbours": [rng.randrange(2 ** 32), rng.randrange(2 ** 32)], "schedseed": rng.randrange(2 ** 30), "preg": rng.choice([6, 8, 9])}
 
     def gen_cases(self):
         return [self.make_case(self.rng) for _ in range(150 if self.tier == "quick" else 1500)]
@@ -76,7 +78,8 @@ class C06(Check):
             c["values"] = values
             c["decls"] = decls
             for rv in c["regvals"]:
-                b = dsl.build(decls, [["set", ["r", "r", 3], ["c", rv]], [c["op"], ["v", "v"], c["amount"]]])
+                tgt = ["p", "v", c.get("preg", 9)] if c.get("mem") == "ptr" else ["v", "v"]
+                b = dsl.build(decls, [["set", ["r", "r", 3], ["c", rv]], [c["op"], tgt, c["amount"]]])
                 if b.error is not None:
                     c["_err"] = b.error
                     break
@@ -190,10 +193,11 @@ class C06(Check):
         return not isinstance(o, Err) and case["shared"]
 
     def extra_checks(self):
-        return [isa_check.check(self.seed + 3, 40 if self.tier == "quick" else 300)]
+        from . import hash_check
+        return [isa_check.check(self.seed + 3, 40 if self.tier == "quick" else 300), hash_check.check(self.seed + 7, 40 if self.tier == "quick" else 300)]
 
     def rule(self):
-        return ("v += / -= amount on an i/I/q/Q variable of a shared array map between two 4-byte neighbours (80%; else a local, single instance), amount = constant "
+        return ("v += / -= amount on an i/I/q/Q/x variable of a shared array map (directly, or through a pointer register r6/r8/r9: e.mI[e.r9 + offset] += amount) or hash map between two 4-byte neighbours (80%; else a local, single instance), amount = constant "
                 "(small, 2**31, 2**32+5, negative) / r or sr register / expression over the register, a private local and constants; 2-3 instances with different "
                 "register values; schedules: round robin, sequential both ways, four adversarial ones (everybody up to 2..5 instructions before its end, then round "
                 "robin), 4 (thorough 12) random shuffles")
